@@ -314,7 +314,9 @@ func c07(r *rand.Rand, tier string, tr *trace.Buf, extra map[string]interface{})
 		}
 		type cand struct {
 			seed [48]uint8
-			ok   bool
+			ok   bool // cAddQ boundary
+			zA   bool // the expanded matrix has a coefficient that is exactly 0 (streams by the standard library)
+			zS   bool // NTT(s1), NTT(s2) or NTT(t0) has a coefficient that is exactly 0 (library's transform, heuristic only)
 		}
 		ntry := 40000
 		cands := make([]cand, ntry)
@@ -336,6 +338,38 @@ func c07(r *rand.Rand, tier string, tr *trace.Buf, extra map[string]interface{})
 					pk, sk := d.GetPK(), d.GetSK()
 					_, t1 := dilithium.VerifUnpackPk(&pk)
 					_, _, _, t0, _, s2 := dilithium.VerifUnpackSk(&sk)
+					rho, _ := dilithium.VerifUnpackPk(&pk)
+					for a := 0; a < dilithium.K && !cands[i].zA; a++ {
+						for b := 0; b < dilithium.L && !cands[i].zA; b++ {
+							st, _ := oracle.Hash(oracle.SHAKE128_N, append(append([]byte{}, rho[:]...), byte(b), byte(a)), 840)
+							acc := 0
+							for g := 0; g+3 <= len(st) && acc < 256; g += 3 {
+								t := uint32(st[g]) | uint32(st[g+1])<<8 | uint32(st[g+2]&0x7f)<<16
+								if t < q {
+									acc++
+									if t == 0 {
+										cands[i].zA = true
+									}
+								}
+							}
+						}
+					}
+					_, _, _, t0u, s1u, s2u := dilithium.VerifUnpackSk(&sk)
+					hasZero := func(p dilithium.VerifPoly) bool {
+						dilithium.VerifNTT(&p)
+						for _, c := range p {
+							if c%q == 0 {
+								return true
+							}
+						}
+						return false
+					}
+					for a := 0; a < dilithium.L && !cands[i].zS; a++ {
+						cands[i].zS = hasZero(s1u[a])
+					}
+					for a := 0; a < dilithium.K && !cands[i].zS; a++ {
+						cands[i].zS = hasZero(s2u[a]) || hasZero(t0u[a])
+					}
 					for a := 0; a < dilithium.K && !cands[i].ok; a++ {
 						for b := 0; b < 256; b++ {
 							t := int(t1[a][b])<<13 + int(t0[a][b])
@@ -364,6 +398,36 @@ func c07(r *rand.Rand, tier string, tr *trace.Buf, extra map[string]interface{})
 			tr.Emit(fix(dEvent{Ev: "keygen", Seed: ints(cands[i].seed[:]), Pk: ints(pk[:]), Sk: ints(sk[:]), Positions: positions(npos), Msg: []int{}, Class: "caddq-boundary"}))
 		}
 		extra["keygen_caddq_boundary_seeds"] = found
+		// keys with an exact zero in the transform domain (matrix entry / secret vectors): key generation and
+		// one signature each, recomputed completely
+		zfound := map[string]int{}
+		for _, kind := range []string{"zero-in-matrix", "zero-in-ntt-of-secret"} {
+			lim := 1
+			if tier == "thorough" {
+				lim = 3
+			}
+			for i := 0; i < ntry && zfound[kind] < lim; i++ {
+				if kind == "zero-in-matrix" && !cands[i].zA || kind == "zero-in-ntt-of-secret" && !cands[i].zS {
+					continue
+				}
+				zfound[kind]++
+				d, _ := dilithium.NewDilithiumFromSeed(cands[i].seed)
+				pk, sk := d.GetPK(), d.GetSK()
+				tr.Emit(fix(dEvent{Ev: "keygen", Seed: ints(cands[i].seed[:]), Pk: ints(pk[:]), Sk: ints(sk[:]), Positions: positions(npos), Msg: []int{}, Class: kind}))
+				keyLine := tr.N
+				msg := make([]byte, 1+r.Intn(60))
+				r.Read(msg)
+				light = false
+				its = nil
+				sig, err := d.Sign(msg)
+				if err != nil {
+					panic(err)
+				}
+				tr.Emit(fix(dEvent{Ev: "sign", KeyLine: keyLine, Sk: ints(sk[:]), Msg: ints(msg), Sig: ints(sig[:]), Iters: its, Positions: positions(npos), Class: kind}))
+				light = true
+			}
+		}
+		extra["keygen_zero_in_transform_domain"] = zfound
 	}
 	// the challenge sampler's rejection loop: among millions of seeds (streams by the standard library) the
 	// ones that consume the most stream bytes
